@@ -195,16 +195,7 @@ func rule062(r *core.Run) {
 	// getUnlocked rejects mismatching bucket/object
 	if gu := mustFunc(r, "gofakes3.(*uploader).getUnlocked"); gu != nil {
 		s := errorSliceOf(r, gu, 2)
-		cmp := 0
-		core.Instrs(gu, func(in ssa.Instruction) {
-			if b, ok := in.(*ssa.BinOp); ok && b.Op == token.NEQ {
-				sx := r.P.SliceOfMany([]ssa.Value{b.X, b.Y}, core.SliceOpts{Depth: -1})
-				if (sx.Has("field:gofakes3.multipartUpload.Bucket") || sx.Has("field:gofakes3.multipartUpload.Object")) && sx.HasPrefix("param:") {
-					cmp++
-				}
-			}
-		})
-		r.Check(has(errCodes(s), "NoSuchUpload") && cmp >= 2, "R06.2", key(fname(r, gu), "rejects unknown/mismatching upload"), r.P.Pos(gu.Pos()),
+		r.Check(has(errCodes(s), "NoSuchUpload") && uploadAddressedExactly(r, gu), "R06.2", key(fname(r, gu), "rejects unknown/mismatching upload"), r.P.Pos(gu.Pos()),
 			"returns NoSuchUpload; compares bucket and object", "getUnlocked no longer rejects an upload id that belongs to another bucket/key")
 	}
 }
